@@ -23,7 +23,7 @@
 use std::any::type_name;
 use std::panic::{catch_unwind, AssertUnwindSafe};
 
-use ndarray::{Array, ArrayViewD, DimAdd, Dimension, Ix0, Ix1, Ix2, Ix3, Ix4, Ix5, Ix6, IxDyn};
+use ndarray::{Array, ArrayViewD, Axis, DimAdd, Dimension, Ix0, Ix1, Ix2, Ix3, Ix4, Ix5, Ix6, IxDyn};
 use ndarray_interp::interp1d::Interp1DBuilder;
 use ndarray_interp::interp2d::Interp2DBuilder;
 use ndarray_interp::verif_hooks::{cast_count, cast_mismatches};
@@ -149,6 +149,17 @@ fn make<T: Elem, D: Dimension>(shape: &[usize], value: fn(usize) -> T) -> Array<
         .expect("rank")
 }
 
+/// the same logical contents, stored back to front with stride -1 when `rev` (a contiguous but
+/// non-standard layout: the fast path must pair element `i` of the query with row `i` of the result)
+fn relayout<T: Clone>(a: &Array<T, Ix1>, rev: bool) -> Array<T, Ix1> {
+    if !rev {
+        return a.clone();
+    }
+    let mut r: Array<T, Ix1> = a.iter().rev().cloned().collect();
+    r.invert_axis(Axis(0));
+    r
+}
+
 fn tn<T>() -> String {
     type_name::<T>().replace(' ', "")
 }
@@ -264,13 +275,13 @@ macro_rules! storage {
 
 macro_rules! a1d {
     ($rep:ident, $T:ty, $stor:ident, $D:ty, $dname:literal) => {{
-        fn run(rep: &mut Report) {
+        fn run(rep: &mut Report, rev: bool) {
             let id = Id {
                 interp: "1d",
                 t: stringify!($T),
                 storage: stringify!($stor),
                 d: $dname,
-                dq: "Ix1",
+                dq: if rev { "Ix1rev" } else { "Ix1" },
             };
             let tys = (
                 tn::<<Ix1 as DimAdd<<$D as Dimension>::Smaller>>::Output>(),
@@ -281,8 +292,9 @@ macro_rules! a1d {
                 let shape = data_shape(<$D as Dimension>::NDIM, 1);
                 let base: Array<$T, $D> = make(&shape, <$T as Elem>::datum);
                 let qbase: Array<$T, Ix1> = make(&[3], <$T as Elem>::qx);
+                let qlaid = relayout(&qbase, rev);
                 storage!($stor, base => data);
-                storage!($stor, qbase => query);
+                storage!($stor, qlaid => query);
                 let interp = Interp1DBuilder::new(data).build().expect("build");
                 let start = cast_count();
                 let c0 = cast_count();
@@ -309,19 +321,20 @@ macro_rules! a1d {
             }));
             rep.record(id, Some(tys), 2, before, res);
         }
-        run($rep);
+        run($rep, false);
+        run($rep, true);
     }};
 }
 
 macro_rules! a2d {
     ($rep:ident, $T:ty, $stor:ident, $D:ty, $dname:literal) => {{
-        fn run(rep: &mut Report) {
+        fn run(rep: &mut Report, rev: bool) {
             let id = Id {
                 interp: "2d",
                 t: stringify!($T),
                 storage: stringify!($stor),
                 d: $dname,
-                dq: "Ix1",
+                dq: if rev { "Ix1rev" } else { "Ix1" },
             };
             let tys = (
                 tn::<<Ix1 as DimAdd<<<$D as Dimension>::Smaller as Dimension>::Smaller>>::Output>(),
@@ -333,9 +346,11 @@ macro_rules! a2d {
                 let base: Array<$T, $D> = make(&shape, <$T as Elem>::datum);
                 let xbase: Array<$T, Ix1> = make(&[3], <$T as Elem>::qx);
                 let ybase: Array<$T, Ix1> = make(&[3], <$T as Elem>::qy);
+                let xlaid = relayout(&xbase, rev);
+                let ylaid = relayout(&ybase, rev);
                 storage!($stor, base => data);
-                storage!($stor, xbase => xs);
-                storage!($stor, ybase => ys);
+                storage!($stor, xlaid => xs);
+                storage!($stor, ylaid => ys);
                 let interp = Interp2DBuilder::new(data).build().expect("build");
                 let start = cast_count();
                 let c0 = cast_count();
@@ -363,7 +378,8 @@ macro_rules! a2d {
             }));
             rep.record(id, Some(tys), 3, before, res);
         }
-        run($rep);
+        run($rep, false);
+        run($rep, true);
     }};
 }
 
